@@ -193,8 +193,8 @@ func one(w *bufio.Writer, seed uint64, n int, all bool, quota int, long bool, on
 	} else {
 		C := twin.Commits
 		var ks []int
-		if all && C > 250 {
-			// the thorough tier makes every commit a crash point, except in histories with more than 250 commits
+		if all && C > 120 {
+			// the thorough tier makes every commit a crash point, except in histories with more than 120 commits
 			// (the 1000+ block chains: every crashed replay repeats the whole chain): a stratified sample of 48
 			all, quota = false, 48
 		}
